@@ -8,6 +8,7 @@ use srh::out::*;
 use srh::rng::Rng;
 use srh::sx;
 use stateright::actor::{ActorModelState, Envelope, Id, Network, RandomChoices};
+use stateright::actor::write_once_register::{WORegisterActorState, WORegisterMsg};
 use stateright::util::{DenseNatMap, HashableHashMap, HashableHashSet};
 use stateright::{Representative, Rewrite, RewritePlan};
 use std::collections::{BTreeMap, BTreeSet, VecDeque};
@@ -247,7 +248,12 @@ fn main() {
         HashableHashSet<Id>, HashableHashSet<(Id, Id)>, HashableHashMap<Id, u8>, HashableHashMap<Id, Id>, HashableHashMap<u8, Vec<Id>>,
         HashableHashSet<Vec<Id>>, Envelope<u8>, Envelope<Id>, Envelope<(Id, u8)>, Vec<Envelope<Id>>, Option<Envelope<Id>>,
         Network<u8>, Network<Id>, Network<(u8, Id)>, Network<Vec<Id>>, Network<Option<Id>>, (Network<Id>, Vec<Id>),
-        Arc2<Id>);
+        Arc2<Id>,
+        WoState<Id>, WoState<Vec<Id>>, WoState<(u8, Vec<Id>)>, WoState<BTreeSet<Id>>,
+        WoMsg<Id, Id>, WoMsg<u8, Vec<Id>>, WoMsg<(Id, u8), Option<Id>>, Network<WoMsg<Id, (Id, Id)>>);
+    if CLIENT_CHANGED.load(std::sync::atomic::Ordering::SeqCst) {
+        out.v("wo-client-state-rewritten", "WORegisterActorState::Client was changed by rewrite (it carries no ids)");
+    }
     dnm_rewrites(&mut out, &mut r, 200 * k);
     // (b) representative of actor-system states
     states::<u8, u8, u8, u8, ()>(&mut out, &mut r, 300 * k, true);
@@ -304,4 +310,78 @@ impl<T: U> U for Arc2<T> {
 }
 impl<T: Rewrite<Id>> Rewrite<Id> for Arc2<T> {
     fn rewrite<S>(&self, plan: &RewritePlan<Id, S>) -> Self { Arc2(self.0.rewrite(plan)) }
+}
+
+/// `WORegisterActorState<S, u64>` (src/actor/write_once_register.rs): `Server(s)` rewrites `s`, `Client{..}` is left
+/// alone.  Shown to the model as `Option<S>` (`Server(s)` = `Some(s)`, `Client` = `None`); that a client is returned
+/// unchanged is checked here (`V` line).
+#[derive(Clone, Debug, Hash, PartialEq)]
+struct WoState<S>(WORegisterActorState<S, u64>);
+impl<S: U> U for WoState<S> {
+    fn ty() -> String { format!("(opt {})", S::ty()) }
+    fn sx(&self) -> String {
+        match &self.0 {
+            WORegisterActorState::Server(s) => format!("(1 {})", s.sx()),
+            WORegisterActorState::Client { .. } => "(0 u)".into(),
+        }
+    }
+    fn gen(r: &mut Rng, d: usize) -> Self {
+        if r.chance(1, 4) {
+            WoState(WORegisterActorState::Client { awaiting: if r.chance(1, 2) { Some(r.below(9) as u64) } else { None }, op_count: r.below(5) as u64 })
+        } else {
+            WoState(WORegisterActorState::Server(S::gen(r, d)))
+        }
+    }
+    fn mutate(&self, r: &mut Rng) -> Self { Self::gen(r, 2) }
+}
+impl<S: Rewrite<Id> + Clone> Rewrite<Id> for WoState<S> {
+    fn rewrite<P>(&self, plan: &RewritePlan<Id, P>) -> Self {
+        let out = self.0.rewrite(plan);
+        if let WORegisterActorState::Client { .. } = &self.0 {
+            if !matches!((&out, &self.0), (WORegisterActorState::Client { awaiting: a, op_count: b }, WORegisterActorState::Client { awaiting: c, op_count: d }) if a == c && b == d) {
+                CLIENT_CHANGED.store(true, std::sync::atomic::Ordering::SeqCst);
+            }
+        }
+        WoState(out)
+    }
+}
+static CLIENT_CHANGED: std::sync::atomic::AtomicBool = std::sync::atomic::AtomicBool::new(false);
+
+/// `WORegisterMsg<u64, V, I>`: the request id is copied, the value and the internal message are rewritten.  Shown to the
+/// model as `(u8, (Option<V>, Option<I>))`: variant-and-id code, the value if the variant has one, the internal message.
+#[derive(Clone, Debug, Hash, PartialEq, Eq)]
+struct WoMsg<V, I>(WORegisterMsg<u64, V, I>);
+impl<V: U, I: U> WoMsg<V, I> {
+    fn parts(&self) -> (u8, Option<V>, Option<I>) {
+        match &self.0 {
+            WORegisterMsg::Internal(m) => (0, None, Some(m.clone())),
+            WORegisterMsg::Put(rid, v) => (1 + 8 * (*rid as u8 % 8), Some(v.clone()), None),
+            WORegisterMsg::Get(rid) => (2 + 8 * (*rid as u8 % 8), None, None),
+            WORegisterMsg::PutOk(rid) => (3 + 8 * (*rid as u8 % 8), None, None),
+            WORegisterMsg::PutFail(rid) => (4 + 8 * (*rid as u8 % 8), None, None),
+            WORegisterMsg::GetOk(rid, v) => (5 + 8 * (*rid as u8 % 8), Some(v.clone()), None),
+        }
+    }
+}
+impl<V: U, I: U> U for WoMsg<V, I> {
+    fn ty() -> String { <(u8, (Option<V>, Option<I>))>::ty() }
+    fn sx(&self) -> String {
+        let (c, v, i) = self.parts();
+        (c, (v, i)).sx()
+    }
+    fn gen(r: &mut Rng, d: usize) -> Self {
+        let rid = r.below(8) as u64;
+        WoMsg(match r.below(6) {
+            0 => WORegisterMsg::Internal(I::gen(r, d)),
+            1 => WORegisterMsg::Put(rid, V::gen(r, d)),
+            2 => WORegisterMsg::Get(rid),
+            3 => WORegisterMsg::PutOk(rid),
+            4 => WORegisterMsg::PutFail(rid),
+            _ => WORegisterMsg::GetOk(rid, V::gen(r, d)),
+        })
+    }
+    fn mutate(&self, r: &mut Rng) -> Self { Self::gen(r, 2) }
+}
+impl<V: Rewrite<Id>, I: Rewrite<Id>> Rewrite<Id> for WoMsg<V, I> {
+    fn rewrite<P>(&self, plan: &RewritePlan<Id, P>) -> Self { WoMsg(self.0.rewrite(plan)) }
 }
